@@ -1,7 +1,8 @@
 (** C08 — independent implementations of the same model agree.  Property theorems only. *)
 From Coq Require Import Reals List ZArith.
 From Interval Require Import Real.Xreal Interval.Interval Eval.Prog Eval.Tree Eval.Eval.
-From FeosVerif Require Import ProgSem AssocC08 Canon.
+From FeosVerif Require Import ProgSem AssocC08 Canon PRTextbookC08.
+From Coquelicot Require Import Coquelicot.
 Local Open Scope R_scope.
 
 (** Two code paths whose regenerated programs are syntactically identical denote the same function:
@@ -68,3 +69,16 @@ Theorem C08_canonical_programs_agree_where_defined : forall A B zs piA piB oa ob
   out_ext A (sel 0 piA env) oa = out_ext B (sel 0 piB env) ob.
 Proof. exact canon_sound_ext. Qed.
 Print Assumptions C08_canonical_programs_agree_where_defined.
+
+(** Peng-Robinson: the residual Helmholtz energy coded in feos-core/src/cubic.rs ([pr_A]: beta A^res for n molecules in volume v,
+    a = ak_mix, b) differentiates to the textbook pressure  n T/(v - n b) - n^2 a/(v^2 + 2 n b v - n^2 b^2)  (k_B = 1) minus the ideal
+    part, for EVERY state with v > n b > 0; second form: what the State layer reports as total pressure, - T dA/dV + n T/v. *)
+Theorem C08_peng_robinson_pressure_textbook : forall T ak b n v, 0 < T -> 0 < b -> 0 < n -> n * b < v ->
+  is_derive (pr_A T ak b n) v (- (pr_p_textbook T ak b n v - n * T / v) / T).
+Proof. exact pr_pressure_textbook. Qed.
+Print Assumptions C08_peng_robinson_pressure_textbook.
+
+Theorem C08_peng_robinson_total_pressure : forall T ak b n v d, 0 < T -> 0 < b -> 0 < n -> n * b < v ->
+  is_derive (pr_A T ak b n) v d -> - T * d + n * T / v = pr_p_textbook T ak b n v.
+Proof. exact pr_total_pressure_textbook. Qed.
+Print Assumptions C08_peng_robinson_total_pressure.
